@@ -9,7 +9,7 @@ from vf.spec import cdb as S
 ID = "C02"
 LEVEL = "exploration"
 TECHNIQUE = "deviation-bounded exhaustive enumeration of joint field assignments and of library-built CDBs; marshall_cdb/unmarshall_cdb compared with an independent spec codec in both directions"
-RULE = ("field dictionaries also as a read-only mappingproxy and as a row object whose iteration yields values (baseline and single deviations); an opcode scan in one process (a CDB marshalled for each of the 256 operation code values, 4 orders; ten classes built, decoded and re-encoded before and after every 32 values: unchanged); per class: (a) joint assignments to all CDB fields at once (service action included; the operation code over all codes of the class's CDB-length group), every assignment deviating "
+RULE = ("per class a derived class with a layout of its own (the widest field re-cut into two under new names): its codec follows its own table only; field dictionaries also as a read-only mappingproxy and as a row object whose iteration yields values (baseline and single deviations); an opcode scan in one process (a CDB marshalled for each of the 256 operation code values, 4 orders; ten classes built, decoded and re-encoded before and after every 32 values: unchanged); per class: (a) joint assignments to all CDB fields at once (service action included; the operation code over all codes of the class's CDB-length group), every assignment deviating "
         "from the all-zero and from the all-ones baseline in at most k fields (k=2 quick, 3 thorough), each deviating field over its whole "
         "alphabet; the spec encoder turns the assignment into bytes, then unmarshall_cdb(bytes) must equal the assignment, "
         "marshall_cdb(assignment) and marshall_cdb(unmarshall_cdb(bytes)) must equal the bytes, and relative to the baseline only the "
@@ -347,7 +347,60 @@ def check_extension(name):
     return out
 
 
+def check_derived_layout(name):
+    """a command class derived from a library class with a layout of its OWN (declared in the class body): one multi-bit field of
+    the parent re-cut into two fields under new names, the parent's name dropped.  The derived class's codec follows the derived
+    table only: decode returns exactly the derived names, encode(decode(b)) == b, the parent class is unaffected"""
+    cls, inst, op = fresh_instance(name)
+    parent = dict(cls._cdb_bits)
+    # the widest field that has at least two bits and lies in one byte or more
+    cand = [(f, b, msb, w) for (f, b, msb, w) in lib_fields(name) if w >= 2 and f != "opcode"]
+    if not cand:
+        return []
+    f, b, msb, w = max(cand, key=lambda t: t[3])
+    ln = S.CLASSES[name]["length"]
+    # absolute bit positions (bit 0 = LSB of the last byte) of the field
+    top = (ln - 1 - b) * 8 + msb
+    lo = top - w + 1
+    split = lo + w // 2
+
+    def entry(hi_bit, lo_bit):
+        first_byte = ln - 1 - hi_bit // 8
+        last_byte = ln - 1 - lo_bit // 8
+        nbytes = last_byte - first_byte + 1
+        mask = ((1 << (hi_bit - lo_bit + 1)) - 1) << (lo_bit - (ln - 1 - last_byte) * 8)
+        assert mask < (1 << (8 * nbytes))
+        return [mask, first_byte]
+    table = {k: v for k, v in parent.items() if k != f}
+    table["x_hi"] = entry(top, split)
+    table["x_lo"] = entry(split - 1, lo)
+    try:
+        derived = type(cls)("Derived" + name, (cls,), {"_cdb_bits": table})
+    except Exception as e:   # noqa: BLE001
+        return [("derived_layout/%s" % name, "deriving a class from %s with its own _cdb_bits raised %s: %s" % (name, type(e).__name__, e))]
+    out = []
+    vals = base_of(name, "ones")
+    want = spec_bytes(name, vals)
+    try:
+        d = derived.unmarshall_cdb(bytearray(want))
+        back = bytes(derived.marshall_cdb(dict(d)))
+    except Exception as e:   # noqa: BLE001
+        return [("derived_layout/%s" % name, "Derived%s (field %s re-cut into x_hi / x_lo): round trip raised %s: %s" % (name, f, type(e).__name__, e))]
+    if set(d) != set(table):
+        out.append(("derived_layout/keys/%s" % name, "Derived%s declares the fields %r, decoding returns %r" % (name, sorted(table), sorted(d))))
+    hi_w = top - split + 1
+    if d.get("x_hi") != (vals[f] >> (w - hi_w)) or d.get("x_lo") != (vals[f] & ((1 << (w - hi_w)) - 1)):
+        out.append(("derived_layout/values/%s" % name, "Derived%s: %s=%#x re-cut decodes to x_hi=%r x_lo=%r" % (name, f, vals[f], d.get("x_hi"), d.get("x_lo"))))
+    if back != want:
+        out.append(("derived_layout/reencode/%s" % name, "Derived%s: marshall_cdb(unmarshall_cdb(%s)) = %s" % (name, want.hex(), back.hex())))
+    if dict(cls._cdb_bits) != parent:
+        out.append(("derived_layout/parent_changed/%s" % name, "deriving a class changed %s._cdb_bits" % name))
+    return out
+
+
 def run_case(case):
+    if case[0] == "derived_layout":
+        return check_derived_layout(case[1])
     if case[0] == "extension":
         return check_extension(case[1])
     if case[0] == "override":
@@ -503,6 +556,16 @@ def run_partition(part, tier, seed):
     for k, what in v:
         acc.violation(k, what, case)
     acc.outcome((name, "built_wide", tuple(k for k, _ in v)))
+    case = ["derived_layout", name]
+    acc.case(case, nontrivial=True, key=("derived_layout", name))
+    try:
+        v = check_derived_layout(name)
+    except Exception as e:
+        import traceback
+        v = [("raises/%s" % name, "%s: derived-layout check %s" % (name, traceback.format_exc()[-400:]))]
+    for k, what in v:
+        acc.violation(k, what, case)
+    acc.outcome((name, "derived_layout", tuple(k for k, _ in v)))
     case = ["extension", name]
     acc.case(case, nontrivial=True, key=("extension", name))
     try:
